@@ -127,6 +127,7 @@ struct SharedX {
     visited: Vec<Mutex<HashSet<u128>>>,
     nstates: AtomicU64,
     stop: AtomicBool,
+    panicked: AtomicBool,
 }
 impl SharedX {
     fn insert(&self, k: u128) -> bool {
@@ -255,6 +256,7 @@ pub fn explore(cfg: &Arc<Cfg>, checks: &Checks, opts: &Opts) -> Stats {
         visited: (0..64).map(|_| Mutex::new(HashSet::new())).collect(),
         nstates: AtomicU64::new(0),
         stop: AtomicBool::new(false),
+        panicked: AtomicBool::new(false),
     };
     let total = Mutex::new(Stats::default());
     let threads = opts.threads.max(1);
@@ -271,9 +273,17 @@ pub fn explore(cfg: &Arc<Cfg>, checks: &Checks, opts: &Opts) -> Stats {
                     None
                 };
                 let mut st = Stats::default();
+                // a panic in one worker (machinery error) must not leave the others waiting for it for ever
+                let mut guarded = |start: Option<Arc<Node>>, st: &mut Stats| {
+                    let r = std::panic::catch_unwind(std::panic::AssertUnwindSafe(|| run_one(cfg, checks, opts, sh, start, st, &scratch)));
+                    if r.is_err() {
+                        sh.panicked.store(true, Ordering::SeqCst);
+                        sh.stop.store(true, Ordering::SeqCst);
+                    }
+                };
                 if wi == 0 {
                     sh.active.fetch_add(1, Ordering::SeqCst);
-                    run_one(cfg, checks, opts, sh, None, &mut st, &scratch);
+                    guarded(None, &mut st);
                     first_done.store(true, Ordering::SeqCst);
                     sh.active.fetch_sub(1, Ordering::SeqCst);
                 }
@@ -289,7 +299,7 @@ pub fn explore(cfg: &Arc<Cfg>, checks: &Checks, opts: &Opts) -> Stats {
                     match item {
                         Some(n) => {
                             if !sh.stop.load(Ordering::SeqCst) {
-                                run_one(cfg, checks, opts, sh, Some(n), &mut st, &scratch);
+                                guarded(Some(n), &mut st);
                             }
                             sh.active.fetch_sub(1, Ordering::SeqCst);
                         }
@@ -308,6 +318,9 @@ pub fn explore(cfg: &Arc<Cfg>, checks: &Checks, opts: &Opts) -> Stats {
             });
         }
     });
+    if sh.panicked.load(Ordering::SeqCst) {
+        panic!("MACHINERY: an exploration worker panicked (see above) on {}", cfg.short());
+    }
     let mut st = total.into_inner().unwrap();
     st.wall_s = t0.elapsed().as_secs_f64();
     st
